@@ -139,8 +139,9 @@ func main() {
 
 	rep.Discover = os.Getenv("VERIF_DISCOVER") != ""
 
-	// full alphabet to the bound, then the core alphabet one level deeper
-	sysNames := []string{"admin@/", "users@/", "admin@/p/q", "core-admin@/", "core-users@/"}
+	// the core alphabet one level deeper than the bound (cheap, runs first so that a
+	// tight budget is spent on it completely), then the full alphabet to the bound
+	sysNames := []string{"core-admin@/", "core-users@/", "admin@/", "users@/", "admin@/p/q"}
 	if *systems != "" {
 		sysNames = strings.Split(*systems, ",")
 	}
@@ -168,7 +169,6 @@ func main() {
 		harnessErr string
 		numOps     int
 		bounds     []string
-		complete   = true
 	)
 
 	for si, sn := range sysNames {
@@ -213,10 +213,6 @@ func main() {
 
 		if st.HarnessErr != "" {
 			harnessErr = sn + ": " + st.HarnessErr
-		}
-
-		if st.DepthDone < sd && st.FrontierLeft+len(st.PerDepth) > 0 && !st.Exhaustive {
-			complete = false
 		}
 
 		bounds[len(bounds)-1] += fmt.Sprintf(" (completed %d)", st.DepthDone)
@@ -274,13 +270,16 @@ func main() {
 	}
 
 	code := rep.Finish()
+
+	matched := rep.KnownMatched()
+	if matched == nil {
+		matched = []string{}
+	}
 	if harnessErr != "" {
 		fmt.Fprintln(os.Stderr, "harness error:", harnessErr)
 
 		code = 2
 	}
-
-	_ = complete
 
 	fmt.Printf("%s summary: tier=%s systems=%d states=%d transitions=%d bounds=[%s] exhaustive=%v distinct_outcome_classes=%d violation_instances=%d new_signatures=%d wall=%.1fs\n",
 		*id, *tier, len(all), states, trans, strings.Join(bounds, "; "), exh, len(outcomes), rep.Total, rep.NewCount(), time.Since(start).Seconds())
@@ -296,7 +295,7 @@ func main() {
 				"distinct_nontrivial = distinct (actor kind, call, twin outcome kind) classes observed on transitions",
 			"samples": samples, "outcome_class_samples": oc,
 			"exhaustive": exh, "bound": "histories of length: " + strings.Join(bounds, "; "),
-			"alphabet_sizes": alpha, "systems": all, "known_findings_matched": rep.KnownMatched(),
+			"alphabet_sizes": alpha, "systems": all, "known_findings_matched": matched,
 			"violation_instances": rep.Total,
 		},
 		Assumptions: []string{
